@@ -95,4 +95,82 @@ theorem checksum_eq_eip55 (a : Bytes) (h20 : a.length = 20) : addressChecksumStr
   rw [← hexEncode_eq_hexOf, hz]
   rfl
 
+/-! ### the checksum spelling parses back to the address -/
+
+/-- two characters that denote the same hex digit (or are both not hex digits) -/
+def SameDigit (a b : Char) : Prop := hexDigitVal a = hexDigitVal b
+
+def SameDigits : List Char → List Char → Prop
+  | [], [] => True
+  | a :: l, b :: m => SameDigit a b ∧ SameDigits l m
+  | _, _ => False
+
+theorem hexDecode_congr : ∀ (l1 l2 : List Char), SameDigits l1 l2 → hexDecode l1 = hexDecode l2
+  | [], [], _ => rfl
+  | [_], [_], _ => rfl
+  | a :: b :: r, a' :: b' :: r', h => by
+    simp only [SameDigits] at h
+    obtain ⟨h1, h2, h3⟩ := h
+    unfold SameDigit at h1 h2
+    simp only [hexDecode, h1, h2, hexDecode_congr r r' h3]
+  | [], _ :: _, h => by simp [SameDigits] at h
+  | _ :: _, [], h => by simp [SameDigits] at h
+  | [_], _ :: _ :: _, h => by simp [SameDigits] at h
+  | _ :: _ :: _, [_], h => by simp [SameDigits] at h
+
+theorem upper_same : ∀ k : Fin 16, hexDigitVal (hexChar k.val).toUpper = hexDigitVal (hexChar k.val) := by decide
+
+theorem cased_same (g : Char × Nat → Bool) : ∀ (l : List Char) (n : Nat), (∀ c ∈ l, ∃ k, k < 16 ∧ c = hexChar k) →
+    SameDigits ((l.zipIdx n).map fun p => if g p then p.1.toUpper else p.1) l
+  | [], _, _ => by simp [SameDigits]
+  | c :: l, n, h => by
+    simp only [List.zipIdx_cons, List.map_cons, SameDigits]
+    refine ⟨?_, cased_same g l (n + 1) (fun c' hc' => h c' (List.mem_cons_of_mem _ hc'))⟩
+    obtain ⟨k, hk, rfl⟩ := h c List.mem_cons_self
+    unfold SameDigit
+    split
+    · exact upper_same ⟨k, hk⟩
+    · rfl
+
+/-- decoding the EIP-55 spelling (without its prefix) gives the address bytes -/
+theorem eip55_decodes (a : Bytes) : ∃ cs, Spec.Numeric.eip55 a = '0' :: 'x' :: cs ∧ hexDecode cs = hexDecode (hexEncode a) := by
+  unfold Spec.Numeric.eip55
+  simp only []
+  rw [← hexEncode_eq_hexOf]
+  refine ⟨_, rfl, ?_⟩
+  apply hexDecode_congr
+  have := cased_same (fun p => decide (p.1.isAlpha ∧
+      (let b := ((Prim.keccak256 ((hexEncode a).map fun c => UInt8.ofNat c.toNat)).getD (p.2 / 2) 0).toNat
+       if p.2 % 2 = 0 then b / 16 else b % 16) ≥ 8)) (hexEncode a) 0 (hexEncode_mem a)
+  simpa using this
+
+theorem cased_small_digit : ∀ k : Fin 16, (hexChar k.val).toUpper.toNat < 256 ∧ (hexChar k.val).toNat < 256 := by decide
+
+theorem cased_small (g : Char × Nat → Bool) : ∀ (l : List Char) (n : Nat), (∀ c ∈ l, ∃ k, k < 16 ∧ c = hexChar k) →
+    ∀ c ∈ ((l.zipIdx n).map fun p => if g p then p.1.toUpper else p.1), c.toNat < 256
+  | [], _, _ => by simp
+  | c :: l, n, h => by
+    intro x hx
+    simp only [List.zipIdx_cons, List.map_cons, List.mem_cons] at hx
+    rcases hx with rfl | hx
+    · obtain ⟨k, hk, rfl⟩ := h c List.mem_cons_self
+      split
+      · exact (cased_small_digit ⟨k, hk⟩).1
+      · exact (cased_small_digit ⟨k, hk⟩).2
+    · exact cased_small g l (n + 1) (fun c' hc' => h c' (List.mem_cons_of_mem _ hc')) x hx
+
+/-- the EIP-55 spelling is ASCII -/
+theorem eip55_small (a : Bytes) : ∀ c ∈ Spec.Numeric.eip55 a, c.toNat < 256 := by
+  unfold Spec.Numeric.eip55
+  simp only []
+  rw [← hexEncode_eq_hexOf]
+  intro c hc
+  simp only [List.mem_cons] at hc
+  rcases hc with rfl | rfl | hc
+  · decide
+  · decide
+  · exact cased_small (fun p => decide (p.1.isAlpha ∧
+      (let b := ((Prim.keccak256 ((hexEncode a).map fun c => UInt8.ofNat c.toNat)).getD (p.2 / 2) 0).toNat
+       if p.2 % 2 = 0 then b / 16 else b % 16) ≥ 8)) (hexEncode a) 0 (hexEncode_mem a) c (by simpa using hc)
+
 end FFS.Lemmas.Eip55
